@@ -304,6 +304,49 @@ static void build(vf::Plan &plan, const vf::Opts &o)
                    unsigned b = vf::take(i, 256), slot = vf::take(i, 6), other = vf::take(i, 3);
                    return strf("byte %02X at slot %u, filler %u", b, slot, other);
                });
+    // ---- every start alignment of the input array (encoders) and of the caller's output buffer (decoders): a path chosen by
+    // alignment (word-at-a-time loops) must give the same text
+    {
+        std::vector<unsigned> lens;
+        for (unsigned L = 0; L <= 80; ++L) lens.push_back(L);
+        for (unsigned L : {127u, 128u, 129u, 255u, 256u, 257u, 258u, 1023u, 1024u, 1025u, 1026u}) lens.push_back(L);
+        auto lp = std::make_shared<std::vector<unsigned>>(lens);
+        plan.stage(strf("alignment: %zu lengths (0..80, around 128 / 256 / 1024) x 16 start alignments of the source array and of the output buffer", lens.size()),
+                   lens.size() * 16,
+                   [lp](uint64_t i, Ctx &c) {
+                       unsigned a = (unsigned)vf::take(i, 16), len = (*lp)[i];
+                       std::string d = sweep_data((uint64_t)len * 256 + (len * 7 + a) % 256);
+                       static vf::GuardArena ga, go;
+                       const char *gp = ga.place_aligned(d.data(), d.size(), a);
+                       std::string wh = ref::hex_encode((const unsigned char *)d.data(), d.size()), wb = ref::b64_encode((const unsigned char *)d.data(), d.size());
+                       vf::Outcome o = vf::guard([&] {
+                           ST::string eh = ST::hex_encode(gp, d.size()), eb = ST::base64_encode(gp, d.size());
+                           VF_ADD("ops", 2);
+                           VF_COUNT("validated");
+                           if (std::string(eh.c_str(), eh.size()) != wh)
+                               c.fail("hex_encode:text:depends-on-source-alignment", strf("%zu bytes at an address = %u mod 16: got %s", d.size(), a, vf::vis(eh.c_str(), eh.size()).c_str()));
+                           if (std::string(eb.c_str(), eb.size()) != wb)
+                               c.fail("base64_encode:text:depends-on-source-alignment", strf("%zu bytes at an address = %u mod 16: got %s", d.size(), a, vf::vis(eb.c_str(), eb.size()).c_str()));
+                           // decoders writing into a caller buffer that starts at the same alignment (exact fit: ends at the guard page)
+                           std::string zero(d.size(), '\0');
+                           char *out = go.place_aligned(zero.data(), zero.size(), a);
+                           ST_ssize_t n1 = ST::hex_decode(ST::string::from_validated(wh.data(), wh.size()), out, d.size());
+                           bool ok1 = n1 == (ST_ssize_t)d.size() && memcmp(out, d.data(), d.size()) == 0;
+                           memset(out, 0, d.size());
+                           ST_ssize_t n2 = ST::base64_decode(ST::string::from_validated(wb.data(), wb.size()), out, d.size());
+                           bool ok2 = n2 == (ST_ssize_t)d.size() && memcmp(out, d.data(), d.size()) == 0;
+                           VF_ADD("ops", 2);
+                           if (!ok1) c.fail("hex_decode(buffer):bytes:depends-on-output-alignment", strf("%zu bytes into a buffer at an address = %u mod 16: returned %zd", d.size(), a, (ssize_t)n1));
+                           if (!ok2) c.fail("base64_decode(buffer):bytes:depends-on-output-alignment", strf("%zu bytes into a buffer at an address = %u mod 16: returned %zd", d.size(), a, (ssize_t)n2));
+                       });
+                       if (!o.ok()) c.fail(strf("alignment:%s", vf::outkind_name(o.kind)), o.str());
+                       if (nontrivial(d)) c.nontrivial();
+                   },
+                   [lp](uint64_t i) {
+                       unsigned a = (unsigned)vf::take(i, 16);
+                       return strf("%u bytes at alignment %u", (*lp)[i], a);
+                   });
+    }
     vf_early::add_stage(plan);
 }
 
